@@ -12,6 +12,9 @@ observations:  {"c": [kind, contents, meta]}  persistent collection (kind V L Q 
                {"t": a}                       transient number a (numbered by identity, in order
                                               of first appearance)
                {"v": elem} {"b": bool} {"n": int} {"s": [ordered, elems]} {"e": class}
+variadic ops:  ["dissocn", i, [k ..]] ["disjn", i, [x ..]] ["assocn", i, [[k, v] ..]] and the transient
+               ["conj!n", i, [x ..]] ["assoc!n", i, [[k, v] ..]] ["dissoc!n", i, [k ..]] ["disj!n", i, [x ..]]
+               are performed as ONE call (dissoc m k1 k2 ..) etc. and give one observation
 elements:      null, true/false, int, {"f": z} (the float z.0), {"k": n} (keyword :kn),
                {"o": n} (object with identity equality whose hash collides with 1), [elems] (vector)
 """
@@ -240,6 +243,14 @@ def do(ctx, slots, op):
         return "coll", F["disj!"](S(op[1]), E(op[2]))
     if name == "pop!":
         return "coll", F["pop!"](S(op[1]))
+    # variadic calls: ONE call of the core function with all the arguments
+    if name in ("dissocn", "disjn", "conj!n", "dissoc!n", "disj!n"):
+        return "coll", F[name[:-1]](S(op[1]), *[E(x) for x in op[2]])
+    if name in ("assocn", "assoc!n"):
+        flat = []
+        for k, v in op[2]:
+            flat += [E(k), E(v)]
+        return "coll", F[name[:-1]](S(op[1]), *flat)
     if name == "eq":
         a, b = S(op[1]), S(op[2])
         r = F["="](a, b)
